@@ -152,7 +152,16 @@ def gen_instance(rng, big: bool = False) -> dict:
     centers = []
     for i, m in enumerate(mods):
         r = rng.random()
-        if m["kind"] in ("fixed", "fterminal") and r < 0.8:
+        ro = rng.random()
+        if ro < (0.05 if m["kind"] in ("fixed", "fterminal") else 0.14):
+            # OUTSIDE the die (also negative coordinates): a movable module must be clamped back by the first iteration;
+            # a fixed one (and anything with max_iter = 0) is left where it is
+            ox = rng.choice([-rng.uniform(0.01, W), W + rng.uniform(0.01, W), -1.0, W + 3.0, rng.uniform(0, W)])
+            oy = rng.choice([-rng.uniform(0.01, H), H + rng.uniform(0.01, H), -0.5, H + 1.5, rng.uniform(0, H)])
+            if 0 <= ox <= W and 0 <= oy <= H:
+                ox = W + 1.0
+            centers.append([ox, oy])
+        elif m["kind"] in ("fixed", "fterminal") and r < 0.8:
             centers.append("keep")
         elif r < 0.45:
             centers.append("keep")
@@ -349,7 +358,15 @@ def spec_on_output(ctx: Ctx, inp: dict, before, before_c, die, out_die, what: st
                 ok = False
         else:
             tx, ty = 1e-9 * W, 1e-9 * H
-            if not (-tx <= c.x <= W + tx and -ty <= c.y <= H + ty):
+            started_inside = c0 is None or (0 <= c0[0] <= W and 0 <= c0[1] <= H)
+            if c0 is not None and not started_inside:
+                ctx.count("movable-start-outside-die" + ("(max_iter=0: not clamped)" if inp.get("iters", 1) == 0 else ""))
+            if inp.get("iters", 1) == 0 and not started_inside:
+                # max_iter = 0: nothing is clamped; the centre is the input centre (c - s + s)
+                if ulps(c.x, c0[0], W / 2) > 4 or ulps(c.y, c0[1], H / 2) > 4:
+                    ctx.spec_fail(f"{what}:zero-iterations-unmoved", inp, {"module": m.name, "before": list(c0), "after": [c.x, c.y]}, size=n)
+                    ok = False
+            elif not (-tx <= c.x <= W + tx and -ty <= c.y <= H + ty):
                 ctx.spec_fail(f"{what}:inside-die", inp, {"module": m.name, "center": [c.x, c.y]}, size=n)
                 ok = False
     return ok
@@ -537,6 +554,23 @@ def _run_pair(inp: dict) -> dict:
     return out
 
 
+def gen_lone(rng) -> dict:
+    """1-3 modules without any net (zero displacement for a lone module), soft or area-0 terminals, some outside the die."""
+    W, H = rng.choice([4.0, 8.0, 10.0, 7.3]), rng.choice([4.0, 6.0, 12.0, 5.5])
+    mods, centers = [], []
+    for i in range(rng.randint(1, 3)):
+        if rng.random() < 0.5:
+            mods.append({"name": f"A{i}", "kind": "soft", "area": round(rng.uniform(0.5, 6), 2), "center": [W / 2, H / 2]})
+        else:
+            mods.append({"name": f"T{i}", "kind": "terminal", "center": [0.0, H / 2]})
+        centers.append(rng.choice([[W + 3.0, H / 2], [-1.0, H + 1.5], [rng.uniform(0, W), rng.uniform(0, H)], [W / 2, -2.0],
+                                   [-rng.uniform(0.1, 5), -rng.uniform(0.1, 5)], [W, H]]))
+    if all(m["kind"] == "terminal" for m in mods):  # a netlist of terminals only cannot be built (no area at all)
+        mods.append({"name": "B9", "kind": "soft", "area": 1.0, "center": [W / 2, H / 2]})
+        centers.append("keep")
+    return {"W": W, "H": H, "mods": mods, "nets": [], "centers": centers, "history": "yaml", "history_pick": 0}
+
+
 def gen_symmetric(rng) -> dict:
     """nets of arity 3..6, several modules equal and coincident (a symmetric, unstable start: rounding decides)."""
     inp = gen_instance(rng, big=False)
@@ -623,7 +657,8 @@ def run(ctx: Ctx) -> None:
     rng = ctx.rng
     ctx.rule = ("instances: die 3..25 (integer and decimal sizes), 1..8 (thorough 12) modules mixing soft / fixed (rectangles) / "
                 "terminal / fixed terminal / hard, 0..2n nets of arity 2..6 with default and explicit weights; the state is then "
-                "overridden: random centres, centres on the border and corners, coincident and nearly coincident (1e-12..1e-3) centres, "
+                "overridden: random centres, centres OUTSIDE the die / with negative coordinates (14% of the movable, 5% of the fixed modules), "
+                "lone and net-less modules incl. area-0 terminals (`gen_lone`), centres on the border and corners, coincident and nearly coincident (1e-12..1e-3) centres, "
                 "missing centre; object history: as read from YAML / default squares created after the die (centre Point shared with the square) / "
                 "a soft module seeded with the Point object of a fixed module or pin / two movable modules sharing one Point; kappa from the 0.4..1.5 table or uniform in (0.05, 3). Streams: `layout` = max_iter 1 (2/3 of cases) "
                 "or 2..5 vs the Float model to 1e-9*size (+ wire length / overlap of the result); `long-run` = 6..30 (thorough 100) "
@@ -634,7 +669,9 @@ def run(ctx: Ctx) -> None:
                 "PYTHONHASHSEED 0..4: bit-identical centres required. Non-trivial = at least one movable module.")
     ctx.assumptions += [
         "kappa > 0 (kappa = 0 divides by zero) and at least one module",
-        "input centres of fixed modules lie inside the die (then 'every centre inside the die' follows from 'fixed not moved')",
+        "'every centre inside the die': a MOVABLE module is inside after >= 1 iteration whatever its start (out-of-die and negative "
+        "starts are generated); a FIXED module, and any module when max_iter = 0, is not clamped by the code: it is inside iff its "
+        "input centre was (hypothesis hin of centres_inside_die) — checked as 'unmoved' instead",
         "circle_circle_intersection_area returns a finite float (C17); runs where it raises ValueError are counted, not judged",
         "'not moved' on the float stream = within 4 ulp of max(|c|, size/2); equality in the exact-arithmetic theorem",
     ]
@@ -643,7 +680,7 @@ def run(ctx: Ctx) -> None:
         replay(ctx, {"input": inp})
     check_clamp(ctx)
     for i in range(ctx.n(400, 3000)):
-        inp = gen_instance(rng, big=ctx.tier != "quick")
+        inp = gen_lone(rng) if rng.random() < 0.06 else gen_instance(rng, big=ctx.tier != "quick")
         inp["kappa"] = rng.choice(KAPPAS) if rng.random() < 0.5 else round(rng.uniform(0.05, 3.0), rng.choice([1, 3, 12]))
         inp["iters"] = 1 if rng.random() < 0.66 else rng.randint(2, 5)
         if rng.random() < 0.04:
@@ -656,13 +693,13 @@ def run(ctx: Ctx) -> None:
         ctx.count("history-" + inp["history"])
         check_layout_corr(ctx, inp)
     for i in range(ctx.n(80, 1000)):
-        inp = gen_instance(rng, big=ctx.tier != "quick")
+        inp = gen_lone(rng) if rng.random() < 0.1 else gen_instance(rng, big=ctx.tier != "quick")
         inp["kappa"] = rng.choice(KAPPAS) if rng.random() < 0.3 else round(rng.uniform(0.05, 3.0), 3)
         inp["iters"] = rng.randint(6, 30 if ctx.tier == "quick" else 100)
         inp["stream"] = "long"
         check_long_run(ctx, inp)
     for i in range(ctx.n(50, 300)):
-        inp = gen_instance(rng, big=False)
+        inp = gen_lone(rng) if rng.random() < 0.12 else gen_instance(rng, big=False)
         inp["centers"] = [c if c is not None else "keep" for c in inp["centers"]]
         for m in inp["mods"]:
             if m["kind"] == "soft" and m.get("center") is None:
